@@ -64,7 +64,7 @@ hawk_oow_t hawk_utf16_to_uc (const hawk_bch_t* utf16, hawk_oow_t size, hawk_uch_
 {
 	const hawk_uint16_t* u16 = (const hawk_uint16_t*)utf16;
 
-	if (size < 2) return 0; /* incomplete sequence */
+	if (size < 2) return 2; /* incomplete sequence - indicated by the return value greater than 'size' */
 
 	if (u16[0] < HIGH_SURROGATE_START || u16[0] > LOW_SURROGATE_END)
 	{
@@ -75,7 +75,7 @@ hawk_oow_t hawk_utf16_to_uc (const hawk_bch_t* utf16, hawk_oow_t size, hawk_uch_
 #if (HAWK_SIZEOF_UCH_T > 2)
 	else if (u16[0] >= HIGH_SURROGATE_START && u16[0] <= HIGH_SURROGATE_END) /* high-surrogate */
 	{
-		if (size < 4) return 0; /* incomplete */
+		if (size < 4) return 4; /* incomplete */
 		if (u16[1] >= LOW_SURROGATE_START && u16[1] <= LOW_SURROGATE_END) /* low-surrogate */
 		{
 			*uc = (((u16[0] & 0x3FF) << 10) | (u16[1] & 0x3FF)) + 0x10000;
